@@ -1,0 +1,51 @@
+//go:build verif
+
+package shell_operator
+
+import (
+	"context"
+
+	"github.com/deckhouse/deckhouse/pkg/log"
+	klient "github.com/flant/kube-client/client"
+
+	"github.com/flant/shell-operator/pkg/metric"
+	"github.com/flant/shell-operator/pkg/task/queue"
+)
+
+// VerifC06Assemble wires a ShellOperator the way Init/AssembleCommonOperator/assembleShellOperator do,
+// minus the HTTP/debug servers and the webhook managers' servers: event managers, hook managers and
+// the hook manager initialisation (hook discovery and --config runs) over the given client.
+func VerifC06Assemble(ctx context.Context, logger *log.Logger, kubeClient *klient.Client, ms, hms metric.Storage, hooksDir, tempDir string) (*ShellOperator, error) {
+	op := NewShellOperator(ctx, WithLogger(logger))
+	op.MetricStorage = ms
+	op.HookMetricStorage = hms
+	op.KubeClient = kubeClient
+	op.SetupEventManagers()
+	op.setupHookManagers(hooksDir, tempDir)
+	if err := op.initHookManager(); err != nil {
+		return nil, err
+	}
+	return op, nil
+}
+
+// VerifC06Bootstrap is the first step of Start(): fill the main queue.
+func (op *ShellOperator) VerifC06Bootstrap() *queue.TaskQueue {
+	op.bootstrapMainQueue(op.TaskQueues)
+	return op.TaskQueues.GetMain()
+}
+
+// VerifC06Run performs the remaining steps of Start() in the same order (no API server, no live
+// metrics): main queue, hook queues, events handler, schedule manager. tune is applied to every
+// queue created by initAndStartHookQueues as well (delays are public fields).
+func (op *ShellOperator) VerifC06Run(tune func(q *queue.TaskQueue)) {
+	if tune != nil {
+		tune(op.TaskQueues.GetMain())
+	}
+	op.TaskQueues.StartMain()
+	op.initAndStartHookQueues()
+	if tune != nil {
+		op.TaskQueues.Iterate(func(q *queue.TaskQueue) { tune(q) })
+	}
+	op.ManagerEventsHandler.Start()
+	op.ScheduleManager.Start()
+}
